@@ -127,7 +127,21 @@ const letters = "abcdefghijklmnopqrstuvwxyzABCDEFGHIJKLMNOPQRSTUVWXYZ_-+./#@!$%&
 // words of the key spellings WITHOUT their colon: legal inside values (no key token is spelled)
 var bareWords = []string{"done", "submit", "date", "sub", "stat", "text", "err", "dlvrd", "id", "Sub", "Submit_Date", "Done_Date", "Text", "resubmitted", "undone", "idx", "submit_date", "done-date"}
 
+// the values real receipts carry, with and without leading NUL octets (a NUL is a space-free octet like any
+// other): values that agree in everything but their length and leading zeros / NULs
+var commonValues = []string{"DELIVRD", "ELIVRD", "EXPIRED", "UNDELIV", "001", "000", "01", "1", "0", "00", "2401011200", "401011200"}
+
 var valueGen = rapid.Custom(func(t *rapid.T) string {
+	if rapid.IntRange(0, 5).Draw(t, "common") == 0 {
+		w := rapid.SampledFrom(commonValues).Draw(t, "commonvalue")
+		switch rapid.IntRange(0, 3).Draw(t, "nulprefix") {
+		case 0:
+			w = "\x00" + w
+		case 1:
+			w = "\x00\x00" + w
+		}
+		return vk.Hex([]byte(w))
+	}
 	if rapid.IntRange(0, 7).Draw(t, "bareword") == 0 {
 		w := rapid.SampledFrom(bareWords).Draw(t, "word")
 		if rapid.Bool().Draw(t, "suffix") {
@@ -314,6 +328,34 @@ func TestCMPPStatusReport(t *testing.T) {
 		rec.Sample("cmpp-report", ref.ToJ(b.Spec, v))
 		pc := gen.PCase{Vals: ref.ToJ(b.Spec, v)}
 		rec.ReportSeq(t, "roundtrip", pc, func() *vk.Violation { return gen.RoundTrip(b, v) })
+		// a receiver that is used for report after report: first a report whose text fields are proper prefixes
+		// of this one's, then this one - the second decode must give exactly this report
+		va := *v
+		va.F = map[string]any{}
+		for k, x := range v.F {
+			va.F[k] = x
+		}
+		shorter := false
+		for _, f := range b.Spec.Fields {
+			if f.Kind == ref.FixStr && len(v.B(f.Name)) >= 2 {
+				va.F[f.Name] = v.B(f.Name)[:len(v.B(f.Name))-1]
+				shorter = true
+			}
+		}
+		if shorter {
+			ia, ea := b.Fill(&va).IEncode()
+			ib, eb := b.Fill(v).IEncode()
+			if ea == nil && eb == nil {
+				r := b.New()
+				if r.IDecode(ia) == nil && r.IDecode(ib) == nil {
+					rec.Eval()
+					rec.Class("receiver_reused_for_a_report_that_extends_the_previous_one")
+					if d := ref.Diff(b.Spec, v, b.Extract(r)); d != "" {
+						rec.Report(t, "roundtrip", vk.Violf("cmpp.SubPduDeliveryContent/second-decode-into-same-receiver", pc, "a receiver that had decoded a report with shorter fields decodes this report wrongly: %s", d))
+					}
+				}
+			}
+		}
 		if img, err := b.Fill(v).IEncode(); err == nil && len(img) != 60 {
 			rec.Report(t, "roundtrip", vk.Violf("cmpp.SubPduDeliveryContent/length", nil, "status report body has %d octets, specification says 60", len(img)))
 		}
